@@ -746,6 +746,14 @@ private:
 
   void spawnWorker()
   {
+    // The limit is re-checked under the same lock acquisition that inserts the worker: callers decide to
+    // spawn in an earlier critical section, and several of them may have passed that check together.
+    std::lock_guard<std::mutex> lock(_mutex);
+    if (_threads.size() >= _maxSize)
+    {
+      return;
+    }
+
     std::thread t(
       [this]()
       {
@@ -926,7 +934,6 @@ private:
         #undef VALIDATE_CANARY
       });
 
-    std::lock_guard<std::mutex> lock(_mutex);
     auto threadId = t.get_id();
     _threads.emplace(threadId, std::move(t));
 
